@@ -126,6 +126,12 @@ MUTS = {
 	}''', '''	if previouslyInjected || !previouslyInjected {
 		return append(envVars, corev1.EnvVar{Name: status.KubeAppProberEnvName, Value: newProbers})
 	}''')]),
+    "P10-init-loop-reads-overrides-containers": (WH, [('''		match := FindContainer(c.Name, existingOverrides.InitContainers)''', '''		match := FindContainer(c.Name, existingOverrides.Containers)''')]),
+    "P11-seed-C19-b-merge-direction-on-current-head": (WH, [('''				// merge old and new probers.
+				newKubeAppProber[k] = v''', '''				if _, f := newKubeAppProber[k]; !f {
+					newKubeAppProber[k] = v
+				}''')]),
+    "P12-revert-F10d-status-port": (WH, [('''DumpAppProbers(pod, probeStatusPort(pod.Annotations, req.meshConfig.GetDefaultConfig().GetStatusPort()))''', '''DumpAppProbers(pod, req.meshConfig.GetDefaultConfig().GetStatusPort())''')]),
     "P7-status-annotation-not-stripped": (INJ, [('''	delete(pod.Annotations, annotation.SidecarStatus.Name)
 
 	return pod''', '''	return pod''')]),
